@@ -104,7 +104,7 @@ BigLaw(R) ==
 BigFails(R) ==
   (IF R.same_cls THEN {} ELSE {"C12:result_class"}) \cup
   (IF BigLaw(R) THEN {}
-   ELSE {(IF R.op \in {"str", "strq"} THEN (IF R.a.neg THEN "C14:KNOWN_F8" ELSE "C14:print_big")
+   ELSE {(IF R.op \in {"str", "strq"} THEN "C14:print_big"
           ELSE IF R.op = "cmp" /\ R.cls = "guarded" THEN "C13:big_cmp" ELSE IF R.cls = "guarded" THEN "C13:g_big_" \o R.op ELSE "C12:big_" \o R.op)})
 
 Negative(R) == IF R.cls = "rational" THEN R.a[1] < 0 ELSE R.a < 0
@@ -116,7 +116,6 @@ NumFails(R) ==
        (* C13: with zero guard digits a guarded value prints exactly as the fixed value of the same precision does *)
        (IF R.cls = "guarded" /\ R.g = 0 /\ "twin_same" \in DOMAIN R /\ ~R.twin_same THEN {"C13:g0_prints_unlike_fixed"} ELSE {}) \cup
        (IF PrintLaw(R) THEN {}
-        ELSE IF Negative(R) THEN {"C14:KNOWN_F8"}
         (* F21: guarded with ZERO precision digits shown beyond its precision: "%d.%00d_%0gd" prints a spurious 0 before the underscore *)
         ELSE IF R.cls = "guarded" /\ R.p = 0 /\ R.dEff > 0 /\ R.str.fd = 1 /\ R.str.fr = 0 /\ PrintLaw([R EXCEPT !.str.fd = 0]) THEN {"C14:KNOWN_F21"}
         ELSE {"C14:print"})
